@@ -578,9 +578,15 @@ class InterestNameField(Field):
     def parse_from(self, instance, markers: dict, wire: BinaryStr, offset: int, length: int, offset_btl: int):
         name = Name.decode(wire, offset_btl)[0]
         sig_cover_part = self.sig_covered_part.get_arg(markers)
+        has_digest = False
         for ele in name:
             typ = Component.get_type(ele)
             if typ == Component.TYPE_PARAMETERS_SHA256:
+                if has_digest:
+                    # None of them is covered by the signature: accepting more than one would let anyone
+                    # insert components into a signed Interest's name
+                    raise DecodeError('An Interest name has at most one ParametersSha256DigestComponent')
+                has_digest = True
                 self.digest_buffer.set_arg(markers, Component.get_value(ele))
             else:
                 sig_cover_part.append(ele)
